@@ -62,8 +62,90 @@ impl Sched {
     }
 }
 
+// ------------------------------------------------------------------------------------------------
+// Engine B: free-running threads, events recorded for validation against spec/ResolverTrace.tla.
+// Log points are called inside the lock that orders them (chain mutex, cache mutex); the recorder's own
+// mutex gives one total order that respects each of those locks and every thread's program order.
+pub static TRACE_ON: AtomicBool = AtomicBool::new(false);
+pub static TRACE: Mutex<Vec<(usize, String, u64)>> = Mutex::new(Vec::new());
+pub fn set_thread_index(t: Option<usize>) { TIDX.with(|c| c.set(t)); }
+pub fn trace_event(site: &str, key: u64) {
+    if let Some(t) = TIDX.with(|c| c.get()) {
+        TRACE.lock().unwrap().push((t, site.to_string(), key));
+    }
+}
+thread_local! { static RNG: Cell<u64> = Cell::new(0x9e3779b97f4a7c15); }
+pub fn seed_thread_rng(s: u64) { RNG.with(|c| c.set(s | 1)); }
+fn perturb() {
+    let r = RNG.with(|c| { let mut x = c.get(); x ^= x << 13; x ^= x >> 7; x ^= x << 17; c.set(x); x });
+    match r % 8 { 0 | 1 | 2 => std::thread::yield_now(), 3 => std::thread::sleep(Duration::from_micros(r % 40)), _ => {} }
+}
+
+pub trait IsOk { fn is_ok_value(&self) -> bool; }
+impl<A, B> IsOk for Result<A, B> { fn is_ok_value(&self) -> bool { self.is_ok() } }
+
+/// compute-once cache with the protocol of SyncCache (in-process marker, condvar), every transition logged
+pub struct TCache<T> { inner: Mutex<HashMap<PlainRef, Option<T>>>, cv: Condvar, pub deadlocked: AtomicBool }
+pub struct TCacheRef<T>(pub Arc<TCache<T>>);
+impl<T> TCache<T> {
+    pub fn new() -> TCacheRef<T> { TCacheRef(Arc::new(TCache { inner: Mutex::new(HashMap::new()), cv: Condvar::new(), deadlocked: AtomicBool::new(false) })) }
+}
+impl<T: Clone + IsOk> Cache<T> for TCacheRef<T> {
+    fn get_or_compute(&self, key: PlainRef, compute: impl FnOnce() -> T) -> T {
+        let c = &self.0;
+        let mut g = c.inner.lock().unwrap();
+        let mut waited = false;
+        loop {
+            match g.get(&key) {
+                Some(Some(v)) => {
+                    let ok = v.is_ok_value();
+                    trace_event(match (waited, ok) { (false, true) => "c_hit_ok", (false, false) => "c_hit_err", (true, true) => "c_wake_ok", (true, false) => "c_wake_err" }, key.id);
+                    return v.clone();
+                }
+                Some(None) => {
+                    if !waited { trace_event("c_block", key.id); waited = true; }
+                    let (g2, to) = c.cv.wait_timeout(g, Duration::from_millis(3000)).unwrap();
+                    g = g2;
+                    if to.timed_out() && matches!(g.get(&key), Some(None)) {
+                        c.deadlocked.store(true, Ordering::SeqCst);
+                        drop(g);
+                        std::panic::resume_unwind(Box::new(Aborted));
+                    }
+                }
+                None => {
+                    g.insert(key, None);
+                    trace_event("c_mark", key.id);
+                    drop(g);
+                    perturb();
+                    let v = compute();
+                    perturb();
+                    let mut g = c.inner.lock().unwrap();
+                    trace_event(if v.is_ok_value() { "c_publish_ok" } else { "c_publish_err" }, key.id);
+                    g.insert(key, Some(v.clone()));
+                    c.cv.notify_all();
+                    return v;
+                }
+            }
+        }
+    }
+    fn clear(&self) { self.0.inner.lock().unwrap().clear(); }
+}
+/// the cache-less configuration, with its (trivial) step logged
+pub struct TNoCache;
+impl<T: Clone> Cache<T> for TNoCache {
+    fn get_or_compute(&self, key: PlainRef, compute: impl FnOnce() -> T) -> T {
+        if TRACE_ON.load(Ordering::SeqCst) { trace_event("c_skip", key.id); }
+        compute()
+    }
+    fn clear(&self) {}
+}
+
 /// the process-wide handler installed into pdf::verif
 pub fn hook(site: &'static str, key: u64) {
+    if TRACE_ON.load(Ordering::SeqCst) {
+        if site.ends_with('?') { perturb(); } else { trace_event(site, key); }
+        return;
+    }
     if let Some((t, s)) = current() {
         if site.ends_with('?') {
             s.park(t, Event::Yield { t, site, key });
